@@ -292,7 +292,7 @@ def main(tier):
         run.proof_ok = False
         run.proof_notes.append('hook harness verifalg does not build against this tree: ' + b['verifalg'][1][-600:])
         return run.finish()
-    n = 300 if tier == 'quick' else 6000
+    n = 400 if tier == 'quick' else 6000
     cases = []
     for k, c in enumerate(corpus_cases()):
         c = dict(c, id=str(9000 + k)); cases.append(c)
